@@ -36,7 +36,8 @@ def c04_direct_match_agrees_with_reference(rule_id: str, pattern: str) -> bool:
 def c04_registered_rule_vs_free_pattern(which: int, pattern: str) -> bool:
     """
     pre: 0 <= which < 5
-    pre: len(pattern) <= 4
+    pre: len(pattern) <= 3
+    pre: all(c in "cCqQsS.*" for c in pattern)
     post: _
     """
     rid = RULE_IDS[which]
@@ -75,19 +76,20 @@ def c18_directory_rule_is_boundary_prefix(k1: str, k2: str, path: str) -> bool:
 # ---------------------------------------------------------------- C05
 def c05_key_normalisation(k1: str, k2: str) -> bool:
     """
-    pre: len(k1) <= 4 and len(k2) <= 4 and k1 != k2
+    pre: len(k1) <= 4 and len(k2) <= 4
+    pre: all(c in "ab-_" for c in k1 + k2)
     pre: k1.replace("-", "_") != k2.replace("-", "_")
     post: _
     """
-    out = _normalize_config_keys({k1: 1, k2: [2]})
-    return out == {k1.replace("-", "_"): 1, k2.replace("-", "_"): [2]}
+    out = _normalize_config_keys({k1: 1, k2: 2})
+    return out.get(k1.replace("-", "_")) == 1 and out.get(k2.replace("-", "_")) == 2 and len(out) == 2
 
 
 # ---------------------------------------------------------------- C13 / C03
 def c13_normalize_line_ignores_trailing_whitespace(line: str, pad: int) -> bool:
     """
-    pre: len(line) <= 5 and 0 <= pad <= 3
-    pre: "\\n" not in line and "\\r" not in line
+    pre: len(line) <= 4 and 0 <= pad <= 3
+    pre: all(c in "ab #/='" for c in line)
     post: _
     """
     return normalize_line(line + " " * pad) == normalize_line(line) and normalize_line(line + "\t") == normalize_line(line)
@@ -95,8 +97,8 @@ def c13_normalize_line_ignores_trailing_whitespace(line: str, pad: int) -> bool:
 
 def c13_normalize_line_idempotent_and_indent_free(line: str, indent: int) -> bool:
     """
-    pre: len(line) <= 5 and 0 <= indent <= 4
-    pre: "\\n" not in line and "\\r" not in line
+    pre: len(line) <= 4 and 0 <= indent <= 4
+    pre: all(c in "ab #/='" for c in line)
     post: _
     """
     n = normalize_line(line)
